@@ -179,6 +179,33 @@ theorem key_eq_iff_id_eq {ip m ip' m' k k' : Bytes} {id id' : NetId}
             have h2 : m = m' := congrArg NetId.mask h
             subst h1; subst h2; rfl
 
+/-- Two supported (ip, mask) pairs with one key have the same 16-byte form and the same mask. -/
+theorem encodeKey_inj {ip m ip' m' k : Bytes} (hk : encodeKey ip m = some k) (hk' : encodeKey ip' m' = some k) :
+    to16 ip = to16 ip' ∧ (to16 ip).isSome = true ∧ m = m' := by
+  have h1 := encodeKey_isSome_iff ip m
+  have h2 := encodeKey_isSome_iff ip' m'
+  rw [hk] at h1; rw [hk'] at h2
+  cases hi : netId ip m with
+  | none => rw [hi] at h1; exact absurd h1 (by simp)
+  | some id =>
+    cases hi' : netId ip' m' with
+    | none => rw [hi'] at h2; exact absurd h2 (by simp)
+    | some id' =>
+      have hid : id = id' := (key_eq_iff_id_eq hk hk' hi hi').mp rfl
+      subst hid
+      simp only [netId] at hi hi'
+      cases h16 : to16 ip with
+      | none => rw [h16] at hi; exact absurd hi (by simp)
+      | some b =>
+        cases h16' : to16 ip' with
+        | none => rw [h16'] at hi'; exact absurd hi' (by simp)
+        | some b' =>
+          rw [h16] at hi; rw [h16'] at hi'
+          have e1 : id = ⟨b, m⟩ := (Option.some.inj hi).symm
+          have e2 : id = ⟨b', m'⟩ := (Option.some.inj hi').symm
+          have e := e1.symm.trans e2
+          exact ⟨congrArg some (congrArg NetId.ip16 e), rfl, congrArg NetId.mask e⟩
+
 /-- A target has a key exactly when it has an identity. -/
 theorem keyOf_of_idOf {tg : Target} {id : NetId} (h : idOf tg = some id) :
     ∃ ip m k, resolve tg = some (ip, m) ∧ encodeKey ip m = some k ∧ netId ip m = some id := by
